@@ -93,13 +93,6 @@ fn exec_line(line: &str) -> String {
     };
     let new_out = result.as_ref().map(|_| ()).map_err(|e| *e);
     let (outs, obs) = result.unwrap_or_default();
-    let outs_s: Vec<String> = outs
-        .iter()
-        .map(|o| match o {
-            Some(ids) => format!("Some {}", coq_ids(ids)),
-            None => "None".to_string(),
-        })
-        .collect();
     let obs_s: Vec<String> = obs.iter().map(|(id, s)| format!("({},{})", id, coq_str(s))).collect();
     let term = format!(
         "{{| m_opts := {}; m_new := {}; m_alpha := {}; m_len := {}; m_extra := {}; m_out := {}; m_obs := {} |}}",
@@ -108,7 +101,7 @@ fn exec_line(line: &str) -> String {
         coq_list(&alpha.iter().map(|s| coq_bytes(s.as_bytes())).collect::<Vec<_>>()),
         len,
         coq_list(&extra.iter().map(|s| coq_bytes(s.as_bytes())).collect::<Vec<_>>()),
-        coq_list(&outs_s),
+        coq_unflat(&outs),
         coq_list(&obs_s)
     );
     let tag = f.get("G").cloned().unwrap_or_else(|| "replay".to_string());
@@ -240,7 +233,7 @@ fn generate(seed: u64, n: usize, tier: &str, out: &mut impl Write) {
     for _ in 0..nsamp / 4 + 1 {
         let k = 2 + rng.below(5) as usize;
         let t = random_table(&mut rng, &ab, k);
-        emit(out, &base_spec(t), &ab, if thorough { 9 } else { 7 }, &[], "samp-ab-long");
+        emit(out, &base_spec(t), &ab, if thorough { 7 } else { 6 }, &[], "samp-ab-long");
     }
 
     // 3. random: trained merges over richer alphabets, explicit words
